@@ -147,6 +147,7 @@ struct Ctx {
     ma_now: usize,
     fail_injected: bool,
     replaying: bool,
+    shape: Vec<String>,
     floor: u64,
     cp_floor: u64,
     last_allocated: usize,
@@ -252,6 +253,15 @@ fn log_op(ctx: &mut Ctx, sc: &dyn ScopeOps, optext: &str, outcome: &str) -> Dump
     };
     let chunks: Vec<String> = d.fwd.iter().map(|c| format!("({},{},{})", c.chunk_start, c.size, c.pos)).collect();
     let resp_part = if resps.is_empty() { String::new() } else { format!(" |{resps}") };
+    if ctx.replaying {
+        // the shape of the workload (block ids / checkpoint keys differ between two runs by construction)
+        let w: Vec<&str> = optext.split(' ').collect();
+        ctx.shape.push(match w[0] {
+            "write" | "dealloc" | "split" | "checkpoint" | "reset_to" => w[0].to_string(),
+            "grow" | "shrink" | "shrink_slice" => format!("{} {}", w[0], w[2..].join(" ")),
+            _ => optext.to_string(),
+        });
+    }
     let _ = writeln!(
         ctx.out,
         "op {optext}{resp_part} => {outcome} | reqs {reqs} | cur {cur} pos {} ma {} | stats {} | any {} | chunks {} | live {} sum {}",
